@@ -207,7 +207,11 @@ for i in range(160 * N):
                                     signature_inception=from_us(inc_s * 10**6), key_tag=tag, signers_name=name,
                                     signature_data=b"")
     R.shuffle(keys)
-    it = vlib.run_impl(make_raw_rrsig, sig, list(keys))
+    if i % 3 == 1:
+        with vlib.debug_logging():          # the tools' --debug switch: the octets do not depend on what is logged
+            it = vlib.run_impl(make_raw_rrsig, sig, list(keys))
+    else:
+        it = vlib.run_impl(make_raw_rrsig, sig, list(keys))
     ok, msg = True, ""
     if it[0] == "ok":
         try:
